@@ -95,12 +95,30 @@ func DiagName(p *Program, t *Ty) string {
 		}
 	}
 	walk(t)
-	if leaf == "" && t.K == "struct" && len(t.Fields) > 0 {
-		f := t.Fields[len(t.Fields)-1]
-		if f.Ty.K == "basic" {
-			return f.Name + " " + f.Ty.Name
+	if leaf == "" {
+		// an unnamed struct somewhere inside: name it by its last field
+		var frag string
+		var find func(x *Ty)
+		find = func(x *Ty) {
+			if x == nil || frag != "" {
+				return
+			}
+			if x.K == "struct" && len(x.Fields) > 0 {
+				f := x.Fields[len(x.Fields)-1]
+				frag = f.Name
+				if f.Ty.K == "basic" && f.Ty.Name != "tr.ID" {
+					frag = f.Name + " " + f.Ty.Name
+				}
+				return
+			}
+			if x.K == "named" && x.Decl.Alias {
+				find(x.Decl.Under)
+			}
+			find(x.Elem)
+			find(x.MapKey)
 		}
-		return f.Name
+		find(t)
+		return frag
 	}
 	return leaf
 }
